@@ -105,6 +105,18 @@ def tried(pid):
     return out
 
 
+def tried_benign(pid):
+    out = []
+    for d in sorted(glob.glob(os.path.join(VERIF, 'benign', pid + '-*'))):
+        if os.path.exists(d + '/notes.md'):
+            for l in open(d + '/notes.md'):
+                l = l.strip().lstrip('#').strip()
+                if l:
+                    out.append(l[:200])
+                    break
+    return out
+
+
 def main():
     outdir, kind, rnd = sys.argv[1], sys.argv[2], int(sys.argv[3])
     ids = sys.argv[4:]
@@ -127,6 +139,11 @@ def main():
             for x in tried(i):
                 t += '  - ' + x + '\n'
             t += "\nPrefer subtle, realistic defects: ones that keep round trips / self-consistency working (so only an independent reference, a cross-entry-point comparison, or a specific boundary exposes them), ones on rarely used overloads or configurations, ones that need two or three calls in a particular order, ones at uncommon sizes (e.g. lengths 63/64/65, multiples of the rate plus one, more than 255 blocks, exactly 2^k), ones that only show for particular byte VALUES at particular positions (e.g. a carry, a sign extension of a byte >= 0x80, a zero byte), and ones in code paths shared by several algorithms but reached with unusual parameters by only one of them.\n"
+        if kind == 'benign' and rnd > 1:
+            t += "\n\nThis is round %d of the false-alarm side for this property. Earlier rounds already produced the following property-preserving changes - choose DIFFERENT code, different aspects and different boundaries of the property (other clauses, other entry points, other build configurations, other freedoms the property leaves: ordering, timing, representation, resource use, which of several allowed results is returned, behaviour on inputs outside the documented contract):\n" % rnd
+            for x in tried_benign(i):
+                t += '  - ' + x + '\n'
+            t += "\nAlso consider changes in code that the property's functions merely CALL (shared helpers, the permutation backends, the random source, allocation/wiping helpers, the C++ wrappers around the C functions), and changes that combine two of the freedoms at once.\n"
         t = t.replace('__WT__', '%s/%s' % (outdir, i)).replace('__OUT__', outdir).replace('__ID__', i).replace('__PROP__', txt)
         open('%s/prompt_%s.txt' % (outdir, i), 'w').write(t)
     print('wrote %d prompts to %s' % (len(ids), outdir))
